@@ -361,23 +361,39 @@ def fallback_fold(ctx, report):
     specs = {"node": (10, 10, 30, 20, None), "caption": (20, 30, 40, 20, None), "language": (5, 60, 50, 10, None),
              "set": (15, 70, 60, 12, None)}
     bad, n = [], 0
+    init = cls.find_method("__init__")
+    shared = None          # one creator object for all calls of the fold, as a writer uses one for a whole document
     for passed in itertools.product((True, False), repeat=2):          # caption_node / caption handed in
-        for present in itertools.product((True, False), repeat=4):
+        for present in itertools.product((True, False, "empty"), (True, False, "empty"), (True, False, "empty"), (True, False)):
             for known in (True, False):
                 has = dict(zip(("node", "caption", "language", "set"), present))
-                lay = {k: (W.layout(specs[k]) if has[k] else None) for k in specs}
+                # "empty": a Layout object that positions nothing (all members None) - it counts as no layout at that level
+                lay = {k: (W.layout(specs[k]) if has[k] is True else W.ev("Layout()", "pycaption.geometry") if has[k] == "empty" else None)
+                       for k in specs}
                 node = W.ev("CaptionNode.create_text('x', layout_info=l)", l=lay["node"]) if passed[0] else None
                 cap = W.ev("Caption(1, 2, [CaptionNode.create_text('x')], layout_info=l)", l=lay["caption"]) if passed[1] else None
                 cs = W.ev("CaptionSet({'en': CaptionList([Caption(1, 2, [CaptionNode.create_text('y')])], layout_info=l)}, layout_info=g)", l=lay["language"], g=lay["set"])
                 order = ([lay["node"]] if passed[0] else []) + ([lay["caption"]] if passed[1] else []) + [lay["language"], lay["set"]]
-                chosen = next((x for x in order if x is not None), None)
+                empties = [l_ for k, l_ in lay.items() if has[k] == "empty"]
+                chosen = next((x for x in order if x is not None and not any(x is e_ for e_ in empties)), None)
                 table = W.ev("{}")
                 ids = {}
                 for k_, (name, l_) in enumerate(lay.items()):
-                    if l_ is not None and (known or l_ is not chosen):
+                    if l_ is not None and has[name] is True and (known or l_ is not chosen):
                         table = W.ev("dict(list(t.items()) + [(l, i)])", t=table, l=l_, i=f"r{k_}")
                         ids[name] = f"r{k_}"
-                me = Stub("region creator", {"_region_map": table, "_assigned_region_ids": set()}, cls=cls)
+                if shared is None:
+                    # the creator's own constructor on an empty document, where it folds (it may keep state of its own between
+                    # calls); otherwise an object with the two attributes the routine uses
+                    shared = Stub("region creator", {}, cls=cls)
+                    try:
+                        soup = W.F.eval_in("pycaption.dfxp.base", ast.parse("BeautifulSoup(DFXP_BASE_MARKUP, 'lxml-xml')", mode="eval").body, {})
+                        W.F.call_function(init, [soup, W.ev("CaptionSet({})")], {}, self_value=shared)
+                    except (FoldRaise, AnalysisError):
+                        shared = Stub("region creator", {}, cls=cls)
+                me = shared
+                me.attrs["_region_map"] = table
+                me.attrs["_assigned_region_ids"] = set()
                 n += 1
                 case = {"handed_in": {"caption_node": passed[0], "caption": passed[1]}, "layout_present_at": has,
                         "chosen_layout_in_region_table": known}
